@@ -19,13 +19,38 @@ Decodes22(c, acc, sa, da) ==
         /\ SubSeq(c.buf, 1, c.size) = acc[i].data
         /\ \A j \in (c.size + 1)..Len(c.buf) : c.buf[j] = 255
 
+(* multi-PG frames (C11): decoded by the reference decoder of Codec; every contained group must be a group  *)
+(* somebody submitted for exactly this source, destination and frame format, not yet seen on the bus, and  *)
+(* on the bus no later than its time limit after submission (plus the wake latency of the job thread: 1)   *)
+SeenKey == -1
+Seen(bm) == IF BHas(bm, SeenKey) THEN BGet(bm, SeenKey).seen ELSE {}
+RECURSIVE MpgMatch(_, _, _, _, _, _, _)
+MpgMatch(seen, acc, groups, sa, da, ff, t) ==
+    IF groups = <<>> THEN [seen |-> seen, bad |-> {}]
+    ELSE LET g == Head(groups)
+             cand == {i \in 1..Len(acc) : /\ i \notin seen /\ Len(acc[i].data) <= 60 /\ acc[i].sa = sa /\ acc[i].da = da
+                                           /\ acc[i].ff = ff /\ acc[i].pgn = g.cpgn /\ acc[i].data = g.data}
+         IN IF g.short \/ g.tos # 2 \/ g.tf # 0 THEN [seen |-> seen, bad |-> {"multi-PG frame does not decode (header / length / padding)"}]
+            ELSE IF cand = {} THEN [seen |-> seen, bad |-> {"multi-PG frame contains a group nobody submitted for this source, destination and frame format (or twice)"}]
+            ELSE LET i == CHOOSE x \in cand : \A y \in cand : x <= y IN
+                 IF t > acc[i].t + acc[i].tl + 1 THEN [seen |-> seen, bad |-> {"parameter group on the bus later than its time limit"}]
+                 ELSE MpgMatch(seen \cup {i}, acc, Tail(groups), sa, da, ff, t)
+
 Bm22Step(bm, acc, cfgs, n, e) ==
     LET pf == IdPf(e.id)  da == IdPs(e.id)  sa == IdSa(e.id)  d == e.data
         stack == e.ev = "tx"
         ok(b) == [bm |-> b, bad |-> {}]
         ko(why) == [bm |-> bm, bad |-> {why}]
+        mpg == stack /\ (~e.ext \/ (pf = PF_MPG /\ IdDp(e.id) = 0 /\ IdEdp(e.id) = 0))
     IN
-    IF IdDp(e.id) # 0 \/ pf \notin {PF_FDCM, PF_FDDT} \/ ~e.ext THEN ok(bm)
+    IF mpg THEN
+       IF Len(d) \notin FdLengths \/ Len(d) > 64 THEN ko("multi-PG frame length is not a legal CAN FD length")
+       ELSE LET r == IF e.ext THEN MpgMatch(Seen(bm), acc, MpgDecode(d), sa, da, 3, e.t)
+                     ELSE MpgMatch(Seen(bm), acc, MpgDecode(d), e.id % 256, GLOBAL, 2, e.t)
+            IN IF r.bad # {} THEN [bm |-> bm, bad |-> r.bad]
+               ELSE IF MpgDecode(d) = <<>> THEN ko("multi-PG frame without any parameter group")
+               ELSE ok(BPut(bm, [key |-> SeenKey, seen |-> r.seen, bam |-> TRUE]))
+    ELSE IF IdDp(e.id) # 0 \/ pf \notin {PF_FDCM, PF_FDDT} \/ ~e.ext THEN ok(bm)
     ELSE IF stack /\ Len(d) \notin FdLengths THEN ko("frame length is not a legal CAN FD length")
     ELSE IF pf = PF_FDCM THEN
        IF Len(d) < 12 THEN (IF stack THEN ko("FD.TP.CM shorter than 12 bytes") ELSE ok(bm))
@@ -85,4 +110,8 @@ Bm22Step(bm, acc, cfgs, n, e) ==
             ELSE IF stack /\ c.bam /\ cfgs[n].paceMax >= 0 /\ gap > cfgs[n].paceMax THEN ko("BAM data segments further apart than allowed")
             ELSE IF stack /\ seqn < c.total /\ Len(d) # 64 THEN ko("intermediate data segment is not 64 bytes long")
             ELSE ok(BPut(bm, c2))
+\* at the end of a scenario: every accepted parameter group of <= 60 bytes has been on the bus exactly once
+Bm22Final(bm, acc, tr) ==
+    IF tr.expect.all /\ \E i \in 1..Len(acc) : Len(acc[i].data) <= 60 /\ i \notin Seen(bm)
+    THEN {"accepted parameter group never put on the bus"} ELSE {}
 =============================================================================
